@@ -322,6 +322,33 @@ func c03Tool(args []string) int {
 		}
 		return 0
 	}
+	if len(args) == 2 && args[0] == "parsecheck" {
+		// lines "<src-hex> <tree>": parse src with the real parser, report the first tree that differs
+		data, err := os.ReadFile(args[1])
+		if err != nil {
+			fmt.Fprintln(os.Stderr, err)
+			return 2
+		}
+		n := 0
+		for _, line := range strings.Split(string(data), "\n") {
+			f := strings.Fields(line)
+			if len(f) != 2 {
+				continue
+			}
+			n++
+			src := unhx(f[0])
+			got := "PARSEERR"
+			if tree, err := parser.Parse("t", src); err == nil {
+				got = c03Tree(tree)
+			}
+			if got != f[1] {
+				fmt.Printf("FOUND\t%s\t%s\t%s\n", src, f[1], got)
+				return 0
+			}
+		}
+		fmt.Println("checked", n)
+		return 0
+	}
 	if len(args) >= 2 && args[0] == "payload" {
 		fmt.Println(c03Payload(args[1]))
 		return 0
